@@ -37,16 +37,17 @@ type immutCase struct {
 	History []laterRead `json:"history"`
 }
 type immutLine struct {
-	Ev      string      `json:"ev"`
-	ID      int         `json:"id"`
-	Kind    string      `json:"kind"`
-	Depth   int         `json:"depth"`
-	Size    string      `json:"size"`
-	History []laterRead `json:"history"`
-	ReadOK  bool        `json:"readok"`
-	Before  string      `json:"before"`
-	After   []string    `json:"after"`
-	Detail  string      `json:"detail"`
+	Ev        string      `json:"ev"`
+	ID        int         `json:"id"`
+	Kind      string      `json:"kind"`
+	Depth     int         `json:"depth"`
+	Size      string      `json:"size"`
+	History   []laterRead `json:"history"`
+	ReadOK    bool        `json:"readok"`
+	MayReject bool        `json:"mayreject"` // the wire image is one the reader may refuse; if it does there is nothing to retain
+	Before    string      `json:"before"`
+	After     []string    `json:"after"`
+	Detail    string      `json:"detail"`
 }
 
 func immutAVPs(kind string, alt bool, plen int) []*diam.AVP {
@@ -106,7 +107,47 @@ func immutAVPs(kind string, alt bool, plen int) []*diam.AVP {
 	return []*diam.AVP{one(kind)}
 }
 
+// kinds whose wire image the library would not produce itself; the reader may refuse them (MayReject)
+func immutRaw(kind string, alt bool) []byte {
+	x := byte(0)
+	if alt {
+		x = 0xFF
+	}
+	switch kind {
+	case "ipv4mapped": // an IPv4-typed AVP carrying the 16-byte IPv4-mapped form
+		pay := append([]byte{0, 0, 0, 0, 0, 0, 0, 0, 0, 0, 0xff, 0xff}, 10^x, 9^x, 8^x, 7^x)
+		return rawAVP(9016, 0x40, 0, 8+len(pay), pay, true)
+	case "badgroup": // an optional (no M bit) group whose last member declares more than is there
+		inner := rawAVP(9001, 0x40, 0, 12, []byte{1 ^ x, 2 ^ x, 3 ^ x, 4 ^ x}, true)
+		bad := rawAVP(9010, 0x40, 0, 8+40, []byte{5 ^ x, 6 ^ x, 7 ^ x, 8 ^ x, 9 ^ x, 10 ^ x, 11 ^ x, 12 ^ x}, false)
+		pay := append(inner, bad...)
+		return rawAVP(9018, 0, 0, 8+len(pay), pay, true)
+	case "addrmapped": // an Address of family 2 holding an IPv4-mapped address (re-encodes shorter: a known finding elsewhere)
+		pay := append([]byte{0, 2, 0, 0, 0, 0, 0, 0, 0, 0, 0, 0, 0xff, 0xff}, 10^x, 1^x, 2^x, 3^x)
+		return rawAVP(9009, 0x40, 0, 8+len(pay), pay, true)
+	}
+	return nil
+}
+
 func immutWire(c *immutCase, size string, alt bool, dp *dict.Parser) []byte {
+	if raw := immutRaw(c.Kind, alt); raw != nil {
+		body := raw
+		for d := 0; d < c.Depth; d++ {
+			code := uint32(9018)
+			if d%2 == 1 {
+				code = 9050
+			}
+			body = rawAVP(code, 0x40, 0, 8+len(body), body, true)
+		}
+		if size == "large" {
+			fill := byte(0x11)
+			if alt {
+				fill = 0xEE
+			}
+			body = append(body, rawAVP(9010, 0x40, 0, 8+1500, bytes.Repeat([]byte{fill}, 1500), true)...)
+		}
+		return msgBytes(body, abs.VCmd, abs.VApp, 0x80)
+	}
 	m := diam.NewMessage(abs.VCmd, 0x80, abs.VApp, 0x10203040, 0x50607080, dp)
 	plen := c.Plen
 	if plen == 0 {
@@ -137,8 +178,14 @@ func immutWire(c *immutCase, size string, alt bool, dp *dict.Parser) []byte {
 func snapshot(m *diam.Message) string {
 	h := sha1.New()
 	p := safely(func() {
+		// the header as it stands, before anything is called on the message (a write must not alter it either)
+		hd := m.Header
+		fmt.Fprintf(h, "%d %d %d %d %d %d %d|", hd.Version, hd.MessageLength, hd.CommandFlags, hd.CommandCode, hd.ApplicationID, hd.HopByHopID, hd.EndToEndID)
 		b, _ := m.Serialize()
 		h.Write(b)
+		var wb bytes.Buffer
+		m.WriteTo(&wb)
+		h.Write(wb.Bytes())
 		h.Write([]byte(m.String()))
 		j, _ := json.Marshal(abs.FromGoList(m.AVP))
 		h.Write(j)
@@ -151,6 +198,7 @@ func snapshot(m *diam.Message) string {
 
 func runImmut(id int, c *immutCase, dp *dict.Parser) immutLine {
 	l := immutLine{Ev: "immut", ID: id, Kind: c.Kind, Depth: c.Depth, Size: c.Size, History: c.History, After: []string{}}
+	l.MayReject = immutRaw(c.Kind, false) != nil
 	m0, err := diam.ReadMessage(bytes.NewReader(immutWire(c, c.Size, false, dp)), dp)
 	if err != nil {
 		l.Detail = err.Error()
